@@ -32,7 +32,7 @@ CHECKS = {
                       "documented notation ambiguities (numbers, one-element sets) are not counted as failures",
         "technique": "property-based testing (rapid): round-trip oracle over structurally generated wire values and schemas",
         "tests": [
-            {"name": "TestC12", "quick": 160000, "thorough": 2400000},
+            {"name": "TestC12", "quick": 160000, "thorough": 10000000},
         ],
     },
     "C03": {
@@ -115,7 +115,7 @@ CHECKS = {
         "level_note": "trusts refdb's final-state duplicate scan (a full scan over canonical values)",
         "technique": "property-based testing (rapid): stateful generation biased to index hand-overs, invariant scan + reference model",
         "tests": [
-            {"name": "TestC06", "quick": 10000, "thorough": 200000},
+            {"name": "TestC06", "quick": 10000, "thorough": 600000},
         ],
     },
     "C02": {
@@ -162,7 +162,7 @@ CHECKS = {
         "level_note": "trusts refdb's name resolution (a two-pass substitution over canonical values)",
         "technique": "property-based testing (rapid): stateful generation biased to named inserts, reference model",
         "tests": [
-            {"name": "TestC15", "quick": 16000, "thorough": 300000},
+            {"name": "TestC15", "quick": 16000, "thorough": 900000},
             {"name": "TestC15API", "quick": 3000, "thorough": 60000},
         ],
     },
@@ -265,7 +265,7 @@ CHECKS = {
         "level_text": "exploration: generated schemas x values round-tripped through the real mapper and JSON codec, plus a wrong-type matrix",
         "level_note": "values are compared in the harness' canonical form obtained by reflection (not through the mapper)",
         "technique": "property-based testing (rapid): round-trip oracle + negative typing matrix",
-        "tests": [{"name": "TestC09", "quick": 100000, "thorough": 2000000}],
+        "tests": [{"name": "TestC09", "quick": 100000, "thorough": 8000000}],
     },
     "C10": {
         "rule": "TestC10Exhaustive enumerates completely, per element type (integer, real, boolean, string, uuid): all pairs of ordered lists over a "
@@ -284,7 +284,7 @@ CHECKS = {
         "technique": "property-based testing (rapid) + exhaustive enumeration of a small universe: inverse law apply(a, diff(a,b)) = b",
         "tests": [
             {"name": "TestC10Exhaustive", "kind": "plain", "quick": 1, "thorough": 1, "shards": {"quick": 1, "thorough": 1}},
-            {"name": "TestC10", "quick": 100000, "thorough": 2000000},
+            {"name": "TestC10", "quick": 100000, "thorough": 8000000},
         ],
     },
     "C11": {
@@ -301,7 +301,7 @@ CHECKS = {
         "level_text": "exploration: generated operation sequences on one row with net-update laws checked after every step",
         "level_note": "the merge of reference-driven changes into a transaction is additionally exercised by every L1 history (checkUpdate in C03/C04/C06)",
         "technique": "property-based testing (rapid): stateful sequences, algebraic net-update laws against first-old/last-new",
-        "tests": [{"name": "TestC11", "quick": 100000, "thorough": 2000000}],
+        "tests": [{"name": "TestC11", "quick": 100000, "thorough": 8000000}],
     },
     "C13": {
         "rule": "model family in {hand-written struct cloned through JSON (15 mapped fields of every kind), generated struct with its own deep copy "
@@ -322,7 +322,7 @@ CHECKS = {
         "level_text": "exploration: generated models x read paths x caller mutations, snapshot-equality oracle and Clone/Equal algebraic laws",
         "level_note": "memory sharing is detected through reflect pointers and by observing mutations; generated deep-copy code for slices/maps is checked in C20",
         "technique": "property-based testing (rapid): aliasing probes (mutate-and-reread) + algebraic laws",
-        "tests": [{"name": "TestC13", "quick": 50000, "thorough": 800000},
+        "tests": [{"name": "TestC13", "quick": 50000, "thorough": 3000000},
                   {"name": "TestC13API", "quick": 5000, "thorough": 60000}],
     },
     "C14": {
@@ -346,7 +346,7 @@ CHECKS = {
         "level_note": "the interleaving of the two goroutines is controlled only through the handler gate; finer schedules are the Go scheduler's",
         "technique": "property-based testing (rapid): history replay oracle over event logs, harness-gated schedules, race detector as instrumented oracle",
         "race": True,
-        "tests": [{"name": "TestC14", "quick": 6000, "thorough": 120000}],
+        "tests": [{"name": "TestC14", "quick": 6000, "thorough": 300000}],
     },
     "C01": {
         "rule": "wire level: a generated schema, libovsdb's server on a unix socket, a plain writer client and 1-2 monitoring clients with 1-2 "
@@ -470,7 +470,7 @@ CHECKS = {
         "race": True,
         "tests": [
             {"name": "TestC17MonitorWindow", "kind": "plain", "quick": 1, "thorough": 1, "shards": {"quick": 1, "thorough": 1}},
-            {"name": "TestC17", "quick": 240, "thorough": 6400},
+            {"name": "TestC17", "quick": 240, "thorough": 12000},
         ],
     },
     "C18": {
